@@ -15,7 +15,7 @@ from gen import static as gen_static  # noqa: E402
 CFG = {"quick": "MC_Static_quick.cfg", "thorough": "MC_Static_thorough.cfg"}
 TARGET_INPROC = os.path.join(CACHE, "target-inproc")
 HARNESS_RS = os.path.join(HARNESS, "inproc", "harness.rs")
-FAMILY = {"C06": ["ep"], "C13": ["pt"], "C15": ["gen"], "C17": ["fw"]}
+FAMILY = {"C06": ["ep"], "C13": ["pt"], "C15": ["gen"], "C17": ["fw"], "C18": ["rule"], "C14": ["ep"]}
 REAL_DIRS = [os.path.join(REPO, "sylvia", "tests"), os.path.join(REPO, "sylvia", "examples"), os.path.join(REPO, "examples")]
 
 
@@ -157,6 +157,8 @@ def feature_key(prop, it, ev):
         return "real:" + str(ev.get("id", "")).split("#")[0]
     if it["family"] == "ep":
         return "overrides=" + ",".join(it["overrides"])
+    if it["family"] == "rule":
+        return "rule=" + it["rule"]
     if it["family"] == "pt":
         return "%s:placement=%s" % (it["macro"], it["id"][2:])
     return it["family"] + ":" + it["id"]
